@@ -9,3 +9,9 @@ Definition override (t : positive -> option fn) (f : positive) (d : fn) : positi
 Definition stub1 (k : fk) (o : fop1) : fn := {| f_arity := 1; f_body := EPrim (PF1 k o) [EVar 0] |}.
 Lemma override_same t f d : override t f d f = Some d. Proof. unfold override. rewrite Pos.eqb_refl. reflexivity. Qed.
 Lemma override_other t f d g : g <> f -> override t f d g = t g. Proof. intros H. unfold override. destruct (Pos.eqb_spec g f); [contradiction|reflexivity]. Qed.
+(* stubs that return their arguments: used to state which arguments a caller passes to a callee whose own behaviour is covered by other lemmas
+   (e.g. the normalised axes handed to the matrix -> quaternion conversion by to_scale_rotation_translation) *)
+Definition stub_args3 : fn := {| f_arity := 3; f_body := EPrim PMk [EVar 0; EVar 1; EVar 2] |}.
+Definition stub_id : fn := {| f_arity := 1; f_body := EVar 0 |}.
+(* lane-wise stand-in for a SIMD polynomial approximation (src/sse2.rs m128_sin is abstracted to the sine primitive applied to every lane) *)
+Definition stub_lanes1 (o : fop1) : fn := {| f_arity := 1; f_body := EPrim (PLanewise1 o) [EVar 0] |}.
